@@ -20,7 +20,7 @@ CHECKS = {
  "C02": ("proof", "Theorems in coq/Props/C02.v, for all byte strings: split_os_argument laws for --n=v, --n, -c=v, -c, -cv=w (value = "
          "every byte after the name / first `=`), cluster law (-abc = -a -b -c), tokens computed item by item, take_arg "
          "treats separated and attached values alike and returns the token bytes, byte-exact conversion for OsString/PathBuf/"
-         "String; the multibyte `-ж=v` failure is proved as a _refuted witness (known finding). Whole-run respelling "
+         "String; short names of any character, one to four bytes (C02_short_eq_any_char; true after the fix: commit 585374b -- before it `-ж=v` was cut inside the character: the former known finding and `_refuted` theorem). Whole-run respelling "
          "invariance: C02_respelling_tree -- on whole conventional subcommand trees two vectors whose token lists differ only by "
          "spelling (relation Resp: adjacent bit, recorded text, which name of an item is used, Word vs ArgWord in value "
          "position; level by level through the tree) get the same verdict from the grammar and hence (C01_conformance) the same "
